@@ -16,7 +16,11 @@ def models(rep, thorough):
     # per arc and timestep entered = left + change in transit + decayed, and between the observation before close-out
     # and the next timestep an arc only decays
     import net_check
-    return net_check.monitor_models(rep, "C02", 600 if thorough else 90, 7 if thorough else 4)
+    seen = net_check.monitor_models(rep, "C02", 600 if thorough else 90, 7 if thorough else 4)
+    # a sewer discharging over every arc class into receivers that fill up (late bounces), several timesteps
+    import mon_duo
+    mon_duo.run(rep, thorough, "C02")
+    return seen
 
 
 if __name__ == "__main__":
